@@ -825,6 +825,17 @@ fn compile(w: &World, lang: Lang, text: &str) -> Result<LogicalPlan, String> {
         Err(p) => Err(format!("PANIC {p}")),
     }
 }
+/// the plan as the translator emits it, before binding and optimization (compared with the plan
+/// shape the theorems are about; the optimizer's rewrites are C09's subject)
+fn translate_only(lang: Lang, text: &str) -> Option<LogicalPlan> {
+    let r = catch(std::panic::AssertUnwindSafe(|| match lang {
+        Lang::Gql => grafeo_engine::query::gql_translator::translate(text).ok(),
+        Lang::Cypher => grafeo_engine::query::cypher_translator::translate(text).ok(),
+        Lang::Gremlin => grafeo_engine::query::gremlin_translator::translate(text).ok(),
+        Lang::Graphql => grafeo_engine::query::graphql_translator::translate(text).ok(),
+    }));
+    r.ok().flatten()
+}
 fn execute(w: &World, lang: Lang, text: &str) -> Obs {
     let s = w.db.session();
     let r = catch(std::panic::AssertUnwindSafe(|| match lang {
@@ -1437,7 +1448,9 @@ fn c08_case(sink: &mut Sink, w: &World, q: &Query, kind: &str, extra_tags: &[Str
             rec.coq = Some(format!("chk_run_k5 {} {} {} {mode} {}", opts_coq(w), run.st_coq, p, o));
             rec.show = Some(format!("show_run {} {} {}", opts_coq(w), run.st_coq, p));
             if lang == Lang::Gql || lang == Lang::Cypher {
-                rec.shape = Some(format!("plan_shape_ok {} {} {}", lang.coq(), qc, p));
+                if let Some(raw) = translate_only(lang, &text).and_then(|lp| plan_coq(&lp.root)) {
+                    rec.shape = Some(format!("plan_shape_ok {} {} {}", lang.coq(), qc, raw));
+                }
             }
         }
         // an engine error on a query the front end accepted counts as a wrong answer; a query the
